@@ -367,4 +367,21 @@ def fromFiles (currentEnv : Env) : List Str → Map → POut
     | .err e _ => .err e m
     | .panic s => .panic s
 
+/-- `startsWithDigitRegex` = `^\s*\d.*` on a key -/
+def startsWithDigit (k : Str) : Bool :=
+  match k.dropWhile isSpaceRE with
+  | c :: _ => c.isDigit
+  | [] => false
+
+/-- `dotenv.ReadWithLookup` on the contents of the files: every file is parsed against the lookup function
+    only (earlier files are NOT visible, unlike `GetEnvFromFile`), keys starting with a digit are dropped,
+    later files replace earlier variables -/
+def readFiles (lookup : Env) : List Str → Map → POut
+  | [], m => .ok m
+  | f :: fs, m =>
+    match parse (stripBOM f) lookup with
+    | .ok env => readFiles lookup fs (mergeInto m (env.filter fun kv => !startsWithDigit kv.1))
+    | .err e _ => .err e m
+    | .panic s => .panic s
+
 end CV.Dotenv
